@@ -75,3 +75,12 @@ claim('C03', 'differential bounded symbolic execution: real DiffXReader vs REF_R
       'and that id, level, logical line, options and content equal it. Each single-defect mutation of the catalogue '
       'must be rejected with a DiffXParseError whose line lies inside the offending section.',
       BASE_NOTE + ' REF_READ is /verif/ref/spec.py.', 'DESIGN.md section 4, C03; section 3')
+
+claim('C08', 'bounded symbolic execution of the real reader and DOM loader on concrete prefixes (every reader state / position inside a section) + fully symbolic byte tails; z3 decides exception type, line bound, message agreement',
+      'Inputs are P+S with P from a catalogue of 29 accepted prefixes and S up to 4 (quick) / 7 (thorough) fully '
+      'symbolic bytes, plus fully symbolic buffers up to 7 / 10 bytes: every feasible path terminates and either '
+      'completes or raises DiffXParseError with 0 <= linenum <= lines(input) and a message agreeing with its '
+      'attributes; DiffX.from_stream on such inputs (and on headers whose option names are attribute names of the '
+      'object-model classes, by reflection) raises only BaseDiffXError subclasses and always closes the stream.',
+      BASE_NOTE + ' json.loads on undetermined symbolic text is exact on a small catalogue and otherwise assumed '
+      'invalid (paths flagged).', 'DESIGN.md section 4, C08')
